@@ -44,6 +44,9 @@ def plan(tier, seed):
             specs.append({"name": "asan-onestep-%dD" % nd, "kind": "onestep", "nd": nd, "n": {1: 20, 2: 12, 3: 8, 4: 4, 5: 2}[nd], "build": "asan", "timeout": 1800})
         for nd in range(2, 6):
             specs.append({"name": "asan-ctypes-%dD" % nd, "kind": "ctypes", "nd": nd, "n": {2: 20, 3: 12, 4: 6, 5: 3}[nd], "build": "asan", "timeout": 1800})
+    if not q:
+        # the kernels once more in a native driver under valgrind memcheck (uninitialised values and leaks, which ASan cannot see)
+        specs.append({"name": "valgrind-kernels", "kind": "valgrind", "n": 3, "timeout": 2400, "once": True})
     return specs
 
 
@@ -170,6 +173,9 @@ def run(spec, rec):
                 ok, _ = rec.noraise("kernel-returns", lambda: fn(*args), site=name, tags=tags)
                 if ok:
                     compare_step(rec, "ctypes-noncubic-%dD" % nd, phi, phi0, grids, axis, nu, ms, gamma, h, dt, delj, None, name, tags)
+    elif kind == "valgrind":
+        from vf import valgrind_kernels
+        valgrind_kernels.run_batch(spec, rec)
     elif kind == "onestep":
         run_onestep(spec, rec, Integration, Numerics)
     elif kind == "constfunc":
